@@ -135,6 +135,66 @@ def spec_check(ctx, models):
                                        % (u, sr[1:], mine))
 
 
+def assignable_map(r):
+    return {(T(t), T(k)): v for t, k, v in r}
+
+
+def assignable_check(ctx, models, printed):
+    """utils.IsRelationAssignable, the property's last observation point: for every relation of a carriable model it must
+    answer yes exactly when the relation has a direct assignment - i.e. when the DSL written for it holds a '[..]' list -
+    and give the same answer on the model read back from that DSL.  Compared with Model/Utils.is_assignable (wire op 210:
+    the function the theorems C02_assignable_* are about) and with this file's own count of direct assignments.
+    printed: {model index: (text, raw re-read model or None)}"""
+    ia = ctx.impl([{"op": "assignable", "m": m} for m in models])
+    try:
+        ma = ctx.model(tf.FAM, ["(210 %s)" % sexp.enc(m) for m in models])
+    except core.ModelUnavailable:
+        ma = [None] * len(models)
+    back_idx = [k for k in sorted(printed) if printed[k][1] is not None]
+    ib = ctx.impl([{"op": "assignable", "m": printed[k][1]} for k in back_idx])
+    back = {k: assignable_map(r["r"]["rels"]) for k, r in zip(back_idx, ib) if "r" in r}
+    for k, (m, a, b) in enumerate(zip(models, ia, ma)):
+        if "r" not in a:
+            ctx.violation("entry-point-abnormal", {"op": "assignable", "model": m, "impl": a})
+            continue
+        got = assignable_map(a["r"]["rels"])
+        names = [T(t[0]) for t in m[1]]
+        if len(set(names)) != len(names):
+            continue
+        if b is not None and assignable_map(b) != got:
+            ctx.violation("correspondence-assignable", {"model": m, "impl": sorted(got.items()), "model_result": sorted(assignable_map(b).items()),
+                                                        "what": "Model/Utils.is_assignable and utils.IsRelationAssignable disagree"}, found_input=False)
+        if not carriable(m):
+            continue
+        lines = {}
+        if k in printed:
+            cur = None
+            for line in printed[k][0].split("\n"):
+                if line.startswith("type "):
+                    cur = line[5:].split(" #")[0]
+                elif line.startswith("    define ") and cur is not None:
+                    nm, _, rest = line[11:].partition(":")
+                    lines[(cur, nm)] = "[" in rest.split(" #")[0]
+        for t in m[1]:
+            for rn, u in t[1]:
+                key = (T(t[0]), T(rn))
+                ctx.evaluations += 1
+                ctx.count("assignable_relations_checked")
+                want = count_this(u) > 0
+                why = None
+                if bool(got.get(key)) != want:
+                    why = "IsRelationAssignable answers %s for a relation with %d direct assignment(s)" % (bool(got.get(key)), count_this(u))
+                elif key in lines and lines[key] != bool(got.get(key)):
+                    why = "IsRelationAssignable answers %s although the DSL written for the relation %s a type restriction list" % (
+                        bool(got.get(key)), "holds" if lines[key] else "holds no")
+                elif k in back and key in back[k] and bool(back[k][key]) != bool(got.get(key)):
+                    why = "IsRelationAssignable answers differently on the model read back from the DSL"
+                if why:
+                    ctx.violation("assignable-disagrees", {"model": m, "type": key[0], "relation": key[1], "why": why,
+                                                           "text": printed.get(k, (None,))[0]})
+                    break
+
+
 def check_models(ctx, models, label):
     spec_check(ctx, models)
     for via in ("proto", "json"):
@@ -165,7 +225,9 @@ def check_models(ctx, models, label):
                 if len(ctx.samples) < 4 and len(a[1]) < 400 and any(count_this(u) for t in m[1] for _, u in t[1]):
                     ctx.sample({"model": m, "dsl": a[1]})
         # losslessness: parse what was printed
-        back = [tf.norm_impl_dsl(r) for r in tf.impl_dsl(ctx, texts, False)]
+        raw_back = tf.impl_dsl(ctx, texts, False)
+        back = [tf.norm_impl_dsl(r) for r in raw_back]
+        assignable_check(ctx, models, {k: (t, r["r"]["model"] if "r" in r and r["r"].get("ok") else None) for k, t, r in zip(idx, texts, raw_back)})
         # the document-level theorem (Proofs/DocRoundTrip.document_round_trip_decidable), evaluated by the extracted model:
         # where model_okb says it applies, the implementation's re-read model must be the model [canonical m] it promises
         try:
